@@ -15,10 +15,15 @@ def main():
         i = a.index("--repo"); repo = a[i + 1]; del a[i:i + 2]
     if "--checks" in a:
         i = a.index("--checks"); checks = a[i + 1].split(","); del a[i:i + 2]
+    root, rnd = "/tmp/mut", 2
+    if "--root" in a:
+        i = a.index("--root"); root = a[i + 1]; del a[i:i + 2]
+    if "--round" in a:
+        i = a.index("--round"); rnd = int(a[i + 1]); del a[i:i + 2]
     if "--no-confirm" in a:
         a.remove("--no-confirm"); confirm = False
     prop, n, sid = a[0], a[1], a[2]
-    W = "/tmp/mut/%s" % prop
+    W = "%s/%s" % (root, prop)
     src = os.path.join(W, "MUTANT%s" % n)
     dst = os.path.join("/verif/seeded", sid)
     conf = None
@@ -49,12 +54,12 @@ def main():
     viol = re.findall(r"VIOLATION property=(\S+) replay=\S*/([^/\s]+)-[0-9a-f]{8}\.json", p.stdout)
     summary = re.search(r"SUMMARY (.*)", p.stdout)
     meta = {
-        "id": sid, "property": prop, "round": 2,
+        "id": sid, "property": prop, "round": rnd,
         "origin": "written by an independent sub-agent that saw only the property text, the list of first-round ideas to avoid and a scratch worktree",
         "files_changed": sorted(set(re.findall(r"^\+\+\+ b/(\S+)", open(os.path.join(dst, "patch.diff")).read(), flags=re.M))),
         "needs_to_manifest": readme[:1500],
         "confirmed_in_scratch_worktree": conf,
-        "confirmation_commands": "tools/confirm_mutant.sh /tmp/mut/%s %s  (git apply; cargo test --workspace --offline; bash demo.sh; git apply -R; cargo build; bash demo.sh)" % (prop, n),
+        "confirmation_commands": "tools/confirm_mutant.sh <scratch worktree of %s> %s  (git apply; cargo test --workspace --offline; bash demo.sh; git apply -R; cargo build; bash demo.sh)" % (prop, n),
         "check_run": "tools/try_mutant.py seeded/%s/patch.diff %s --repo <scratch copy of /repo>  (git apply; ./check --tier quick with VERIF_REPO; git apply -R)" % (sid, " ".join(checks)),
         "check_result_first_run": summary.group(1) if summary else "?",
         "violation_signatures_first_run": sorted(set(v[1] for v in viol))[:8],
